@@ -27,6 +27,14 @@ CHECKS = {
    text="Flank voltages of any sign (zero allowed), positive integer periods, raw samples and cyclepoint positions are z3 variables; the four real burst-feature functions run over the pandas/numpy models on every feasible path (including the 0/0 -> NaN and x/0 -> -inf branches) and each output cell is proved equal to the reference definition and inside [0,1] for positive flank voltages.",
    note="Trusted: pandas/numpy models incl. rank(method=average) (witness-validated on the real libraries), real arithmetic for ratios/means. Bounds: see evidence.bounds (rows <= 5/6, N <= 7/9).",
    ref="4 C05"),
+ 'C09': dict(
+   text="compute_features(x,'trough') and compute_features(-x,'peak') run for real on one path (both burst methods) with raw samples and cyclepoint positions as z3 variables; the cyclepoint search is cut to a recorder that proves both analyses hand it the same signal and returns one arbitrary C01-conforming table; every column of the two tables is proved equal under the documented renaming / negation / one-minus map, labels included.",
+   note="Trusted: numpy/pandas models (witness-validated); relational stub contracts (same input -> same output, detector even). Bounds: 1..3 cycles on N <= 8 (quick) / 9 (thorough). Thresholds fixed at representative values (the rule for all thresholds is C06/C07).",
+   ref="4 C09"),
+ 'C10': dict(
+   text="Two analyses per path. Amplitude: the real cyclepoint search on x and a*x with a symbolic a > 0 (tables proved identical), and the full table on x and a*x for a in {2^-20, 1/2, 2, 2^20} with the cyclepoint search cut (voltage features and band_amp proved multiplied by a, everything else and the labels identical; scale factors are pulled out of the z3 terms so ratios cancel exactly). Units: the whole pipeline on (x, fs, f_range) and (x, c*fs, c*f_range) with symbolic c > 0 and ratio-keyed neurodsp stubs (tables proved identical).",
+   note="Trusted: models (witness-validated); relational stub contracts (filter/amplitude positively homogeneous, detector scale-free, all depend on f/fs only). Bounds in evidence.bounds. IEEE rounding is outside (the statement itself restricts to powers of two).",
+   ref="4 C10"),
  'C16': dict(
    text="Table cells, two threshold vectors and two min_n_cycles are z3 variables; input labels are produced by the real detect_bursts_cycles on the same path, then the real recompute_edges/recompute_edge run; frame (input untouched, only edge consistency cells change), value (one-sided ratio) and label (rule on the edited table; bursts only grow for unchanged thresholds) obligations are proved. Larger tables use a cut of compute_*_consistency (proved by C05) to keep the arithmetic linear.",
    note="Trusted: pandas/numpy models (witness-validated), C05 for the cut configurations. Bounds: uncut rows 3..4 (quick) / 3..5 (thorough); cut rows 3..6 / 3..8.",
